@@ -320,6 +320,13 @@ def menu(fmt):
     add("alias", "shared-instance:goal-position+environment-shape+uncertain-position", lambda s: share(s, "C", ["rect", 4.0, 2.0, 38.0, 2.5, 0.0625], [
         lambda s, v: s["pps"][0]["goal"]["states"][0]["attrs"].__setitem__("position", v), lambda s, v: find(s, "obstacles", 34).__setitem__("shape", v),
         lambda s, v: find(s, "obstacles", 31)["prediction"]["states"][1]["attrs"].__setitem__("position", v)]))
+    # a lanelet far from the origin whose stop line lies 2 cm before its end (closer than 1e-5 of the coordinate, farther than any precision >= 2)
+    add("L4", "lanelet-at-x=5000-with-stop-line-2cm-before-its-end", lambda s: s["lanelets"].append(
+        {"id": 4, "left": [[5000.0, 3.5], [5040.0, 3.5]], "right": [[5000.0, 0.0], [5040.0, 0.0]], "types": ["URBAN"],
+         "stop_line": {"start": [5039.98, 3.5], "end": [5039.98, 0.0], "marking": "SOLID", "sign_ref": [], "light_ref": []}}))
+    add("L4", "lanelet-at-y=-80000-with-stop-line-20cm-before-its-end", lambda s: s["lanelets"].append(
+        {"id": 4, "left": [[3.5, -80000.0], [3.5, -80040.0]], "right": [[0.0, -80000.0], [0.0, -80040.0]], "types": ["URBAN"],
+         "stop_line": {"start": [0.0, -80039.8], "end": [3.5, -80039.8], "marking": "DASHED", "sign_ref": [], "light_ref": []}}))
     add("O32.occ1.t", "occupancy.time_step=interval", lambda s: find(s, "obstacles", 32)["prediction"]["occ"][1].__setitem__("t", ["iv", 2, 4]))
     add("O33.occ", "phantom.occupancies=1", lambda s: find(s, "obstacles", 33)["prediction"].__setitem__("occ", find(s, "obstacles", 33)["prediction"]["occ"][:1]))
 
